@@ -612,6 +612,7 @@ func (p *Peer) LinearizableRead(ctx context.Context) (uint64, error) {
 		p.cancelReadIndex(key)
 		return 0, err
 	}
+	utils.VerifYield("peer.read.wait", p.id)
 	select {
 	case idx, ok := <-ch:
 		if !ok {
